@@ -6777,7 +6777,7 @@ ZSTD_copySequencesToSeqStoreNoBlockDelim(ZSTD_CCtx* cctx, ZSTD_sequencePosition*
                      * should go. We prefer to do this whenever it is not necessary to split the match, or if doing so
                      * would cause the first half of the match to be too small
                      */
-                    if (startPosInSequence >= currSeq.litLength) {
+                    if (startPosInSequence > currSeq.litLength) {
                         /* this block starts inside the match (split by a previous block) : there is nothing of this
                          * block to give back ; its bytes are stored as literals and the match resumes in the next block */
                         break;
